@@ -6,6 +6,8 @@ import Mathlib.Algebra.Algebra.Prod
 import Mathlib.Algebra.Algebra.Pi
 import Mathlib.Tactic.NormNum
 import Mathlib.Tactic.IntervalCases
+import Mathlib.Tactic.FinCases
+import Mathlib.Data.Fin.VecNotation
 
 /-!
 # C10 — the dynamics are equivariant under the symmetries of the rotating sphere
@@ -417,6 +419,102 @@ example : toyMirror.mO ((1, 2) : ℚ × ℚ) = (-1, 2) ∧ toyMirror.mE ((1, 2) 
 /-- the division hypothesis of the moist classes holds for the toy mirror -/
 example (a b : ℚ × ℚ) : toyMirror.ρN (a / b) = toyMirror.ρN a / toyMirror.ρN b := by
   ext <;> simp [toyMirror]
+
+/-! ### a rotation (`ε = 1`): one latitude (`sin θ = 3/5`), four longitudes, modes `a₀ + a_c cos λ + a_s sin λ` -/
+
+def c4 : Fin 4 → ℚ := ![1, 0, -1, 0]
+def s4 : Fin 4 → ℚ := ![0, 1, 0, -1]
+
+def ringOps : HOps ℚ (ℚ × ℚ × ℚ) (Fin 4 → ℚ) :=
+  { toNodal := fun a i => a.1 + a.2.1 * c4 i + a.2.2 * s4 i
+    toModal := fun z => ((z 0 + z 1 + z 2 + z 3) / 4, (z 0 - z 2) / 2, (z 1 - z 3) / 2)
+    dDlon := fun a => (0, a.2.2, -a.2.1)
+    cosLatDDlat := fun _ => 0
+    secLatDDlatCos2 := fun _ => 0
+    laplacian := fun a => (0, -2 * a.2.1, -2 * a.2.2)
+    inverseLaplacian := fun a => (0, -a.2.1 / 2, -a.2.2 / 2)
+    clip := fun a => a
+    lproj := fun l a => if l = 0 then (a.1, 0, 0) else if l = 1 then (0, a.2.1, a.2.2) else 0
+    nL := 2
+    lapEig := fun l => if l = 1 then -2 else 0
+    cosLat := fun _ => 4 / 5, sec2Lat := fun _ => 25 / 16, sinLat := fun _ => 3 / 5
+    oneModal := (1, 0, 0)
+    radius := 1 }
+
+/-- `np.roll(·, 1)` on the four nodes -/
+def turnN : (Fin 4 → ℚ) →ₐ[ℚ] (Fin 4 → ℚ) :=
+  { toFun := fun z i => z (i - 1)
+    map_one' := rfl
+    map_mul' := fun _ _ => rfl
+    map_zero' := rfl
+    map_add' := fun _ _ => rfl
+    commutes' := fun _ => rfl }
+
+@[simp] theorem turnN_apply (z : Fin 4 → ℚ) (i : Fin 4) : turnN z i = z (i - 1) := rfl
+
+/-- the rotation of the coefficient pair by `2π·1·1/4`: `(a_c, a_s) ↦ (−a_s, a_c)` -/
+def turnM : (ℚ × ℚ × ℚ) →ₗ[ℚ] (ℚ × ℚ × ℚ) :=
+  { toFun := fun a => (a.1, -a.2.2, a.2.1)
+    map_add' := fun a b => by ext <;> simp <;> ring
+    map_smul' := fun c a => by ext <;> simp }
+
+@[simp] theorem turnM_apply (a : ℚ × ℚ × ℚ) : turnM a = (a.1, -a.2.2, a.2.1) := rfl
+
+def quarterTurn : Sym ℚ (ℚ × ℚ × ℚ) (Fin 4 → ℚ) := { ρM := turnM, ρN := turnN, ε := 1 }
+
+/-- the hypotheses of T10.1 hold for a non-trivial rotation (`ε = 1`) -/
+theorem quarterTurn_equivariant : Equivariant ringOps quarterTurn where
+  eps_sq := by norm_num [quarterTurn]
+  toNodal x := by
+    funext i
+    fin_cases i <;> simp [ringOps, quarterTurn, c4, s4]
+  toModal z := by
+    have h0 : (0 : Fin 4) - 1 = 3 := rfl
+    have h2 : (2 : Fin 4) - 1 = 1 := rfl
+    have h3 : (3 : Fin 4) - 1 = 2 := rfl
+    ext <;> simp [ringOps, quarterTurn, h0, h2, h3] <;> ring
+  dDlon x := by ext <;> simp [ringOps, quarterTurn]
+  cosLatDDlat x := by simp [ringOps, quarterTurn]; rfl
+  secLatDDlatCos2 x := by simp [ringOps, quarterTurn]; rfl
+  laplacian x := by ext <;> simp [ringOps, quarterTurn]
+  inverseLaplacian x := by ext <;> simp [ringOps, quarterTurn] <;> ring
+  clip x := by simp [ringOps]
+  lproj l x := by
+    by_cases h0 : l = 0
+    · subst h0; ext <;> simp [ringOps, quarterTurn]
+    · by_cases h1 : l = 1
+      · subst h1; ext <;> simp [ringOps, quarterTurn]
+      · simp [ringOps, h0, h1, quarterTurn]; rfl
+  cosLat := by funext i; simp [ringOps, quarterTurn]
+  sec2Lat := by funext i; simp [ringOps, quarterTurn]
+  sinLat := by funext i; simp [ringOps, quarterTurn]
+  oneModal := by ext <;> simp [ringOps, quarterTurn]
+  toNodal_eps x := by simp [quarterTurn]
+  toModal_eps z := by simp [quarterTurn]
+  dDlon_eps x := by simp [quarterTurn]
+  cosLatDDlat_eps x := by simp [quarterTurn]
+  secLatDDlatCos2_eps x := by simp [quarterTurn]
+  inverseLaplacian_eps x := by simp [quarterTurn]
+  clip_eps x := by simp [quarterTurn]
+
+/-- T10.1 applies to a two-layer shallow-water system over a zonally asymmetric orography: the
+ quarter-turned state over the quarter-turned orography has the quarter-turned tendency, and so
+ has every trajectory -/
+example :
+    let eq : ShallowWaterEquations ℚ (ℚ × ℚ × ℚ) (Fin 4 → ℚ) :=
+      { ops := ringOps
+        specs := { densities := [1, 2], radius := 1, angularVelocity := 1 / 2, gravityAcceleration := 1 }
+        orography := some (1 / 10, 1 / 5, -3 / 10)
+        referencePotential := [1, 3 / 2] }
+    let s : DynamicsSW.State (ℚ × ℚ × ℚ) :=
+      { vorticity := [(0, 1, 2), (0, -1, 1 / 2)], divergence := [(0, 1 / 3, 0), (0, 2, -1)],
+        potential := [(1, 1 / 2, 1 / 4), (2, 0, 1)] }
+    (quarterTurn.swEqn eq).explicitTerms (quarterTurn.swState s) = quarterTurn.swState (eq.explicitTerms s) :=
+  sw_explicit_equivariant _ quarterTurn_equivariant _
+
+example : quarterTurn.ρM (1 / 10, 1 / 5, -3 / 10) = (1 / 10, 3 / 10, 1 / 5) := by
+  ext <;> simp [quarterTurn] <;> norm_num
+
 
 /-- the tables of the quarter turn on `N = 4` nodes are rational: `TrigTable` holds by evaluation -/
 def cs4 : ℕ → ℚ := fun j => [1, 0, -1, 0].getD j 0
